@@ -128,6 +128,8 @@ def specAmbCh (p : Spec.Pos) : Move → String
 structure Session where
   g : Game
   s : Spec.GState
+  /-- is the rule-level protocol state `s` maintained for this session? (sampled: `m0every`) -/
+  m0 : Bool := true
 
 def gobs (g : Game) : String :=
   s!"status={gstatusStr g.status} tag={String.ofList g.result} cnt={g.positionCounter g.position} " ++
@@ -221,7 +223,7 @@ def tblBlob (name : String) : String :=
 def sanFlags (mp : MoveProps) : String :=
   flag mp.isCapture "c" ++ flag mp.isCheck "k" ++ flag mp.isMate "m" ++ ambCh mp.amb
 
-def runOp (K : Keys) (committedKeys : String) (lite : Bool) (sess : Option Session) (line : String) : Option Session × String :=
+def runOp (K : Keys) (committedKeys : String) (lite : Bool) (skipM0 : Bool) (sess : Option Session) (line : String) : Option Session × String :=
   let toks := line.splitOn " "
   let op := toks.headD ""
   let arg (i : Nat) : String := toks.getD i ""
@@ -235,6 +237,7 @@ def runOp (K : Keys) (committedKeys : String) (lite : Bool) (sess : Option Sessi
   | "zob" => (sess, s!"keys={committedKeys} ## ")
   | "legal" => (sess, withBoard fun b =>
       let ms := sortStrs ((b.getLegalMoves K).map moveText)
+      if skipM0 then s!"moves={commaOr ms} castle={(b.castlingAvailable none).idx} c03=- ## " else
       let p := absPos b
       let sms := sortStrs ((Spec.legalMoves p).map moveText)
       let sc := CR.ofBits (Spec.castleOk p .king) (Spec.castleOk p .queen)
@@ -245,7 +248,7 @@ def runOp (K : Keys) (committedKeys : String) (lite : Bool) (sess : Option Sessi
       | none => "bad-move ## "
       | some m =>
         let p := absPos b
-        let m0 := if Spec.legal p m then s!"r=ok {specobs K (Spec.apply p m)}" else "r=illegal"
+        let m0 := if skipM0 then "" else if Spec.legal p m then s!"r=ok {specobs K (Spec.apply p m)}" else "r=illegal"
         match b.makeMove K m with
         | .ok nb => s!"r=ok {posobs nb} same=1 ## {m0}"
         | .error _ => s!"r=illegal same=1 ## {m0}")
@@ -255,11 +258,13 @@ def runOp (K : Keys) (committedKeys : String) (lite : Bool) (sess : Option Sessi
       s!"acc={commaOr acc} appdiff=0 panics=0 n={moveUniverse.length} ## acc={commaOr sms}")
   | "status" => (sess, withBoard fun b =>
       let b' := b.updateTerminalStatus K
+      if skipM0 then s!"status={statusStr b'.getStatus} term={b01 b'.term} ## " else
       let p := absPos b
       let st := Spec.status p
       s!"status={statusStr b'.getStatus} term={b01 b'.term} ## status={specStatusStr st} term={b01 (Spec.legalMoves p).isEmpty}")
   | "masks" => (sess, withBoard fun b =>
       let b' := b.updatePinsAndChecks
+      if skipM0 then s!"chk={hexBB b'.checks} pin={hexBB b'.pinned} ## " else
       let p := absPos b
       s!"chk={hexBB b'.checks} pin={hexBB b'.pinned} ## chk={hexBB (bbOfList (Spec.checkers p))} pin={hexBB (bbOfList (Spec.pinnedSet p))}")
   | "q" => (sess, withBoard fun b =>
@@ -319,6 +324,7 @@ def runOp (K : Keys) (committedKeys : String) (lite : Bool) (sess : Option Sessi
       let ill := match moveUniverse.find? (fun m => match m with | .piece _ _ _ none => !b.isLegalMove K m | _ => false) with
         | some m => (match b.moveProps K m with | .ok _ => "ok" | .error _ => "err")
         | none => "err"
+      if skipM0 then s!"sans={commaOr (sorted.map fun r => s!"{r.1}:{r.2.1}:{r.2.2}")} dup={b01 dup} illegal={ill} ## " else
       let p := absPos b
       let srecs := (Spec.legalMoves p).map fun m =>
         (moveText m, Spec.san p m,
@@ -334,29 +340,32 @@ def runOp (K : Keys) (committedKeys : String) (lite : Bool) (sess : Option Sessi
     | some b =>
       let g := Game.ofBoard b
       let s := Spec.init (absPos b)
-      if lite then (some ⟨g, s⟩, "skip ## ") else
-      (some ⟨g, s⟩, s!"{gobs g} ## {specGobs s}")
+      if lite then (some ⟨g, s, false⟩, "skip ## ") else
+      if skipM0 then (some ⟨g, s, false⟩, s!"{gobs g} ## ") else
+      (some ⟨g, s, true⟩, s!"{gobs g} ## {specGobs s}")
   | "g.act" =>
     match sess, parseAction (arg 1) with
-    | some ⟨g, s⟩, some a =>
+    | some ⟨g, s, m0⟩, some a =>
       if lite then
-        (match g.act K a with | .ok g2 => (some ⟨g2, s⟩, "skip ## ") | .error _ => (some ⟨g, s⟩, "skip ## "))
+        (match g.act K a with | .ok g2 => (some ⟨g2, s, false⟩, "skip ## ") | .error _ => (some ⟨g, s, false⟩, "skip ## "))
       else
       let (g', r) := match g.act K a with
         | .ok g2 => (g2, "ok")
         | .error .illegalAction => (g, "illegal")
         | .error .gameFinished => (g, "finished")
         | .error _ => (g, "other")
+      if !m0 then (some ⟨g', s, false⟩, s!"r={r} {gobs g'} ## ") else
       let (s', sr) := match Spec.step s (toSpecAction a) with
         | .ok s2 => ({ s2 with later := s2.later.map normPos }, "ok")
         | .error .illegalAction => (s, "illegal")
         | .error .finished => (s, "finished")
-      (some ⟨g', s'⟩, s!"r={r} {gobs g'} ## r={sr} {specGobs s'}")
+      (some ⟨g', s', true⟩, s!"r={r} {gobs g'} ## r={sr} {specGobs s'}")
     | _, _ => (sess, "bad-session ## ")
   | "g.hist" =>
     match sess with
-    | some ⟨g, s⟩ =>
+    | some ⟨g, s, m0⟩ =>
       let fl := g.history.props.map fun mp => flag mp.isCapture "c" ++ flag mp.isCheck "k" ++ flag mp.isMate "m"
+      if !m0 then (sess, s!"text={hexText g.history.render} lookup=1 flags={commaOr fl} chain=1 ## ") else
       let hist := Spec.history s
       let sfl := (List.range s.moves.length).map fun i =>
         match hist[i]?, s.moves[i]? with
@@ -366,7 +375,7 @@ def runOp (K : Keys) (committedKeys : String) (lite : Bool) (sess : Option Sessi
     | none => (sess, "bad-session ## ")
   | "g.pgn" =>
     match sess with
-    | some ⟨g, _⟩ =>
+    | some ⟨g, _, _⟩ =>
       let pgn := g.asPgn
       -- split at the first blank line
       let rec splitTags : Str → Str → Str × Str
@@ -408,6 +417,9 @@ def main (args : List String) : IO UInt32 := do
   match args with
   | keysPath :: opsPath :: outPath :: rest =>
     let lite := rest.contains "lite"
+    -- `m0every=N`: the declarative spec M0 is executed on every N-th line only (M1 = M0 is a theorem for these ops;
+    -- executing M0 is a sanity check of the statements, not part of the verdict on the implementation)
+    let every : Nat := (rest.filterMap fun a => if a.startsWith "m0every=" then (a.drop 8).toString.toNat? else none).headD 1
     let keysLine := ((← IO.FS.readFile keysPath).trimAscii).toString
     let arr : Array BB := ((keysLine.splitOn ",").map Drv.parseBB).toArray
     let K := Keys.ofArray arr
@@ -415,11 +427,13 @@ def main (args : List String) : IO UInt32 := do
     let hin ← IO.FS.Handle.mk opsPath .read
     let hout ← IO.FS.Handle.mk outPath .write
     let mut sess : Option Drv.Session := none
+    let mut lineno : Nat := 0
     repeat
       let line ← hin.getLine
       if line.isEmpty then break
       let l := (line.trimAsciiEnd).toString
-      let (s', out) := Drv.runOp K committed lite sess l
+      lineno := lineno + 1
+      let (s', out) := Drv.runOp K committed lite (every > 1 && lineno % every != 0) sess l
       sess := s'
       hout.putStrLn out
     hout.flush
